@@ -186,4 +186,7 @@ package csi
 //@       ite(recRefID(r) == old(len(i.refs)) - 1 && old(i.refs[recRefID(r)].stats) != nil, old(i.refs[recRefID(r)].stats.Mapped), 0) + ite(mapped, 1, 0))
 //@   ensures[C15] @unmapped placed ==> (i.refs[recRefID(r)].stats != nil && i.refs[recRefID(r)].stats.Unmapped ==
 //@       ite(recRefID(r) == old(len(i.refs)) - 1 && old(i.refs[recRefID(r)].stats) != nil, old(i.refs[recRefID(r)].stats.Unmapped), 0) + ite(mapped, 0, 1))
+//@   ensures[C15] @span placed ==> i.refs[recRefID(r)].stats.Chunk.End == c.End
+//@   ensures[C15] @spanbegin placed ==> i.refs[recRefID(r)].stats.Chunk.Begin ==
+//@       ite(recRefID(r) == old(len(i.refs)) - 1 && old(i.refs[recRefID(r)].stats) != nil, old(i.refs[recRefID(r)].stats.Chunk.Begin), c.Begin)
 //@   ensures[C15] @unplaced !placed ==> (i.unmapped != nil && *i.unmapped == ite(old(i.unmapped) == nil, 0, old(*i.unmapped)) + 1)
